@@ -48,6 +48,8 @@ std::string output_filename(const char* input_filename, const char* extension)
 	last_dot = strrchr(str, '.');
 	if(last_dot)
 		*last_dot = 0;
+	else
+		last_dot = str + strlen(str); // no extension: append
 	strncat(last_dot, ".", 256);
 	strncat(last_dot, extension, 256);
 	return str;
